@@ -115,18 +115,34 @@ static spec_u64 spec_geom_ret_used(const struct spec_geom *c, unsigned int g)
 }
 
 /*
- * READER side (kernel descriptor_loc generalised to "opened from the copy in group g0"):
- * block from which descriptor block i has to be fetched so that it is a block the format
- * fills with descriptor block i.
- *   old-style part (no meta_bg, or i < first_meta_bg): the copy following the superblock the
- *   filesystem was opened from:  super_loc(g0) + 1 + i.
- *   meta_bg part: descriptor block i describes meta group i whose copies live in the first,
- *   second and last group of that meta group; the primary is the first, the backup used when
- *   the filesystem is opened from a backup superblock is the second.
+ * READER side (kernel descriptor_loc generalised to "opened from the superblock copy in group g0").
+ * A reader must fetch descriptor block i from a block the format fills with descriptor block i:
+ *   old-style part (no meta_bg, or i < first_meta_bg): the contiguous copy following the superblock
+ *   the filesystem was opened from:  super_loc(g0) + 1 + i   (g0 outside the meta_bg region).
+ *   meta_bg part: descriptor block i describes meta group i; its copies live in the first, second
+ *   and last group of that meta group.  The primary is the one in the first group (the only one the
+ *   kernel reads); a reader that was opened from a backup superblock distrusts the primary and
+ *   uses the copy in the SECOND group when that group exists.
  */
 static spec_u64 spec_geom_desc_copy_loc(const struct spec_geom *c, unsigned int holder_group)
 {
 	return spec_geom_has_super(c, holder_group) ? spec_geom_super_loc(c, holder_group) + 1
 						    : spec_geom_group_first(c, holder_group);
+}
+
+static int spec_geom_desc_is_old_style(const struct spec_geom *c, unsigned int i)
+{
+	return !c->meta_bg || i < c->first_meta_bg;
+}
+
+static spec_u64 spec_geom_old_desc_loc(const struct spec_geom *c, unsigned int g0, unsigned int i)
+{
+	return spec_geom_super_loc(c, g0) + 1 + i;
+}
+
+/* first group of meta group i (descriptors per block is 1 << ldpb) */
+static unsigned int spec_geom_meta_first_group(const struct spec_geom *c, unsigned int i)
+{
+	return i << c->ldpb;
 }
 #endif
